@@ -184,3 +184,18 @@ Qed.
 Theorem msgaddress_law a rest :
   addr_ok a = true -> addr_parse (addr_bits a ++ rest) = Ok (a, rest).
 Proof. apply addr_parse_bits. Qed.
+
+(** *** cells pass through unchanged: a [boc.Cell] value (^Cell, Ref[Cell]) becomes
+    the reference itself, and the references of an [Any] are appended as they are —
+    whatever the cell is (the model's cells are opaque values here; the harness
+    checks on the implementation that type, level mask and hash are kept). *)
+Theorem cell_passthrough env fuel c b b' :
+  enc env (S fuel) TCellRef (VCell c) b = Ok b' -> bb b' = bb b /\ br b' = br b ++ [c].
+Proof. cbn [enc]. apply put_ref_ok. Qed.
+
+Theorem any_refs_passthrough env fuel l r b b' :
+  enc env (S fuel) TAny (VAny l r) b = Ok b' -> bb b' = bb b ++ l /\ br b' = br b ++ r.
+Proof.
+  intros He. destruct (enc_is_spec env _ _ _ _ _ He) as (bs & rs & Hs & Hb & Hr).
+  cbn [spec] in Hs. injection Hs as <- <-. split; assumption.
+Qed.
